@@ -1,4 +1,5 @@
 import ChythonModel.Gen.PackTables
+import ChythonModel.Model.Half
 /-!
 # C10 — executable model of the binary pack format (`_pack_v2.pyx`, `_unpack_v0v2.pyx`, glue in
 `molecule.py` / `reaction.py`)
@@ -24,11 +25,6 @@ zlib is outside the model (trusted).
 namespace ChythonModel.Model.Pack
 open ChythonModel.Gen
 
-/-- store into `unsigned char` -/
-@[inline] def u8 (n : Nat) : Nat := n % 256
-/-- store into `unsigned short` -/
-@[inline] def u16 (n : Nat) : Nat := n % 65536
-
 inductive PErr where
   | empty        -- ValueError('Empty molecules not supported')
   | big          -- ValueError('Big molecules not supported')
@@ -43,41 +39,6 @@ inductive PErr where
 def PErr.toString : PErr → String
   | .empty => "empty" | .big => "big" | .neighbors => "neighbors" | .header => "header" | .count => "count"
   | .overread => "overread" | .key => "key" | .table => "table"
-
-/-! ## half precision on dyadic rationals -/
-
-/-- a finite double `±m·2^e` -/
-structure Dy where
-  neg : Bool
-  m : Nat
-  e : Int
-  deriving DecidableEq, Repr, Inhabited
-
-/-- `⌊m·2^k⌋` -/
-def scale2 (m : Nat) (k : Int) : Nat := if k ≥ 0 then m <<< k.toNat else m >>> (-k).toNat
-
-/-- `double_to_float16`: the 16 bits written big-endian into `p[0], p[1]`.
-    `frexp` gives `x = f·2^E`, `f ∈ [½,1)`, `E = bitlength m + e`; all later steps (`*2`, `ldexp`, `-1`, `*1024`)
-    are exact on doubles in the accepted range, the cast `<unsigned short> f` truncates toward zero. -/
-def toF16 (x : Dy) : Nat :=
-  if x.m = 0 then 0 else                       -- `if x == 0.` (also −0.0)
-  let sign := if x.neg then 1 else 0
-  let e : Int := ((Nat.log2 x.m + 1 : Nat) : Int) + x.e - 1   -- `f = frexp(x, &e); e -= 1`
-  if e ≥ 16 ∨ e < -25 then 0 else              -- ignore big (and tiny) values
-  if e < -14 then                              -- subnormal: f = ldexp(2f, 14 + e) = x·2^14 ; e = 0
-    u16 (scale2 x.m (x.e + 24) ||| (sign <<< 15))
-  else                                         -- e += 15 ; f = 2f − 1 ; f *= 1024
-    u16 ((scale2 x.m (x.e - e + 10) - 1024) ||| ((e + 15).toNat <<< 10) ||| (sign <<< 15))
-
-/-- `double_from_bytes(a, b)` with `bits = a·256 + b`. -/
-def ofF16 (bits : Nat) : Dy :=
-  let a := bits >>> 8
-  let b := bits &&& 0xff
-  let sign := (a >>> 7) != 0
-  let e := (a >>> 2) &&& 0x1f
-  let f := ((a &&& 0x03) <<< 8) ||| b
-  if e != 0 then ⟨sign, 1024 + f, (e : Int) - 15 - 10⟩     -- (f/1024 + 1)·2^(e−15)
-  else ⟨sign, f, -24⟩                                       -- (f/1024)·2^(−14)
 
 /-! ## molecules at the level the packer sees them -/
 
@@ -240,15 +201,17 @@ def encode (m : PMol) : Except PErr (List Nat) := do
 
 /-! ## decoder -/
 
+/-- the four stereo bits of an atom record -/
+def stereoOfNibble (st : Nat) : Option Bool :=
+  if st == 0 then none else if st == 2 then some false else if st == 3 then some true
+  else if st == 8 then some false else some true
+
 /-- 9-byte atom record → atom without neighbours, and its neighbour count -/
 def decodeAtom : List Nat → Except PErr (PAtom × Nat)
   | [b0, b1, b2, b3, b4, b5, b6, b7, b8] =>
     let n := u16 (b0 <<< 4 ||| b1 >>> 4)
     let deg := b1 &&& 0x0f
-    let st := b2 >>> 4
-    let stereo : Option Bool :=
-      if st == 0 then none else if st == 2 then some false else if st == 3 then some true
-      else if st == 8 then some false else some true
+    let stereo := stereoOfNibble (b2 >>> 4)
     let z := b3 &&& 0x7f
     let isotope := u8 ((b2 &&& 0x0f) <<< 1 ||| b3 >>> 7)
     if z == 0 ∨ z ≥ unpackElems.length then .error .table else
@@ -327,10 +290,14 @@ def ctDec : Nat → List Nat → Except PErr (List (Nat × Nat × Bool))
       pure ((a <<< 4 ||| b >>> 4, (b &&& 0x0f) <<< 8 ||| c, d != 0) :: r)
   | _ + 1, _ => .error .overread
 
-/-- bytes `data[j]` for `j in range(lo, lo + cnt)` where the loop variable is an `unsigned short` -/
-def readU16Idx (data : List Nat) (lo cnt : Nat) : Except PErr (List Nat) :=
-  (List.range cnt).mapM fun i => match data[u16 (lo + i)]? with
-    | some b => .ok b
+/-- bytes `data[j]` for `j in range(lo, lo + cnt)` (`j`, `order_shift`, `cis_trans_shift` are `unsigned int`) -/
+def readRange (data : List Nat) : Nat → Nat → Except PErr (List Nat)
+  | _, 0 => .ok []
+  | lo, cnt + 1 =>
+    match data[lo]? with
+    | some b => do
+        let r ← readRange data (lo + 1) cnt
+        pure (b :: r)
     | none => .error .overread
 
 structure Decoded where
@@ -338,6 +305,26 @@ structure Decoded where
   cisTrans : List (Nat × Nat × Bool)
   size : Nat
   deriving DecidableEq, Repr
+
+/-- size in bytes of the bond-order block as `unpack` computes it (`order_count`, an `unsigned int`:
+    `bonds_count < 2^15`, so nothing can wrap) -/
+def orderCountOf (version bc : Nat) : Nat :=
+  if version == 2 then
+    let oc := bc * 3
+    if oc % 8 != 0 then oc / 8 + 1 else oc / 8
+  else
+    let oc := bc / 5
+    let oc := if bc % 5 != 0 then oc + 1 else oc
+    oc * 2
+
+/-- the `if bonds_count:` block of `unpack`: connection table, flat order list, adjacency reconstruction.
+    (v0: `for j in range(order_shift, cis_trans_shift, 2): a, b = data[j], data[j + 1]` reads the same bytes.) -/
+def decodeBonds (data : List Nat) (version bc orderShift orderCount : Nat) (recs : List (PAtom × Nat))
+    (afterAtoms : List Nat) : Except PErr (List PAtom) :=
+  if afterAtoms.length < 3 * bc then .error .overread else do
+    let bytes ← readRange data orderShift orderCount
+    rebuild [] [] recs (pairDec (afterAtoms.take (3 * bc)))
+      (if version == 2 then orderDec 0 0 bytes else orderDecV0 bytes)
 
 /-- `_unpack_v0v2.unpack` -/
 def decodeRaw (data : List Nat) : Except PErr Decoded :=
@@ -347,34 +334,14 @@ def decodeRaw (data : List Nat) : Except PErr Decoded :=
     let ctCnt := u16 ((b &&& 0x0f) <<< 8 ||| c)
     let (recs, afterAtoms) ← decodeAtoms atomsCount body
     let bc := u16 ((recs.map (·.2)).sum) / 2
-    let orderCount :=
-      if version == 2 then
-        let oc := u16 (bc * 3)
-        if oc % 8 != 0 then u16 (oc / 8 + 1) else oc / 8
-      else
-        let oc := bc / 5
-        let oc := if bc % 5 != 0 then u16 (oc + 1) else oc
-        u16 (oc * 2)
-    let bondsShift := 4 + 9 * atomsCount
-    let orderShift := bondsShift + 3 * bc
+    let orderCount := orderCountOf version bc
+    let orderShift := 4 + 9 * atomsCount + 3 * bc
     let ctShift := orderCount + orderShift
-    let size := ctShift + 4 * ctCnt
     let atoms ←
-      if bc != 0 then do
-        if afterAtoms.length < 3 * bc then .error .overread
-        let conns := pairDec (afterAtoms.take (3 * bc))
-        let orders ←
-          if version == 2 then do
-            let bytes ← readU16Idx data orderShift orderCount
-            pure (orderDec 0 0 bytes)
-          else do
-            -- `for j in range(order_shift, cis_trans_shift, 2): a, b = data[j], data[j + 1]`
-            let bytes ← readU16Idx data orderShift orderCount
-            pure (orderDecV0 bytes)
-        rebuild [] [] recs conns orders
+      if bc != 0 then decodeBonds data version bc orderShift orderCount recs afterAtoms
       else pure (recs.map (·.1))
     let ct ← ctDec ctCnt (data.drop ctShift)
-    pure ⟨atoms, ct, size⟩
+    pure ⟨atoms, ct, ctShift + 4 * ctCnt⟩
   | _ => .error .overread
 
 /-- `MoleculeContainer.unpack(data, compressed=False)` up to (not including) the stereo re-attachment -/
@@ -479,16 +446,24 @@ def rxnDecode (data : List Nat) : Except PErr (RxnRoles Decoded) :=
   | [] => .error .overread
   | h :: _ => if h != 1 then .error .header else .error .overread
 
+/-- `for _ in range(ac): neighbors += data[shift] & 0x0f; shift += 9` -/
+def degSum (data : List Nat) : Nat → Nat → Except PErr Nat
+  | _, 0 => .ok 0
+  | shift, k + 1 =>
+    match data[shift]? with
+    | some b => do
+        let s ← degSum data (shift + 9) k
+        pure ((b &&& 0x0f) + s)
+    | none => .error .overread
+
 /-- one iteration of the `pack_len` scan: returns (atom count, shift after this molecule) -/
 def scanMol (data : List Nat) (v shift : Nat) : Except PErr (Nat × Nat) := do
   let acs := fromBytesBE (pySlice data (some shift) (some ((shift : Int) + 3)))
   let ac := acs >>> 12
   let shift := shift + 4
-  let degs ← (List.range ac).mapM fun i => match data[shift + 9 * i]? with
-    | some b => (.ok (b &&& 0x0f) : Except PErr Nat)
-    | none => .error .overread
+  let neighbors ← degSum data shift ac
   let shift := shift + 9 * ac
-  let nb := degs.sum / 2
+  let nb := neighbors / 2
   let ct := (acs &&& 0x0fff) * 4
   if v == 2 then .ok (ac, shift + 3 * nb + (nb * 3 + 7) / 8 + ct)
   else if v == 0 then .ok (ac, shift + 3 * nb + ((nb + 4) / 5) * 2 + ct)
